@@ -214,6 +214,14 @@ def decode(ctx, rep):
         rep.fail("R4.2", "found", "Codec::decode not found")
         return
     rep.fn(b.name)
+    # combinator style (`.map(|n| ..).transpose()`) and private helpers of the codec are normalised away first
+    from mirq import expand_adaptors, inline_calls
+    nb = expand_adaptors(b)
+    nb = inline_calls(nb, lambda d: d.startswith("insim::net::codec::Codec::") and not d.endswith(("::decode", "::encode", "::mode", "::new")) and "{closure" not in d, depth=3)
+    nb = expand_adaptors(nb)
+    if nb is not b:
+        rep.notes.append("R4.2: Codec::decode normalised (adaptors expanded / helpers inlined)")
+        b = nb
     DL = b.calls_to(r"Mode::decode_length$")
     ST = b.calls_to(r"BytesMut::split_to$")
     AD = b.calls_to(r"Buf::advance$")
@@ -271,7 +279,7 @@ def decode(ctx, rep):
         sw = r[0] if r else None
     if sw is not None:
         none_t = sw[1].get(0, sw[2])
-        rep.check("R4.2", "need-more-data-untouched", st[0] not in b.reach(none_t) and b.ret_kinds(none_t) == {"Ok"},
+        rep.check("R4.2", "need-more-data-untouched", st[0] not in b.reach_v(via=none_t) and b.ret_kinds_v(none_t) == {"Ok"},
                   "the need-more-data path must return Ok(None) without reaching split_to", b.loc(dl[1]["line"]))
     else:
         rep.fail("R4.2", "need-more-data-untouched", "decode_length's Option is not matched on", b.loc(dl[1]["line"]))
@@ -297,7 +305,7 @@ def decode(ctx, rep):
     rep.check("R4.2", "order", all(b.dominates(order[i], order[i + 1]) for i in range(len(order) - 1)),
               "decode_length -> split_to -> advance -> Cursor::new -> Packet::read must be enforced by dominance (blocks %s)" % order, b.loc())
     trp = b.try_of_call(pr[0])
-    rep.check("R4.2", "decode-error-after-removal", trp is not None and b.ret_kinds(trp[3]) == {"residual"} and b.dominates(st[0], pr[0]),
+    rep.check("R4.2", "decode-error-after-removal", trp is not None and (b.ret_kinds(trp[3]) == {"residual"} or b.error_returned(pr[0])) and b.dominates(st[0], pr[0]),
               "a packet decode error must be returned after the frame has been removed", b.loc(pr[1]["line"]))
     rep.floor("R4.2", 10)
 
@@ -399,7 +407,16 @@ def inventory(ctx, rep):
 
     def extra(s):
         # split_to / advance in Codec::decode: discharged by R4.1 + R4.2 (n in [4, max] and n <= src.len(); frame length n >= 1)
-        if s["fn"] == "insim::net::codec::Codec::decode" and s["kind"] == "precondition" and s["what"].endswith(("BytesMut::split_to", "Buf::advance", "BytesMut::advance", "::index")):
+        def part_of_decode(fn):
+            f = fn.split("::{closure")[0]
+            for _ in range(4):
+                if f == "insim::net::codec::Codec::decode":
+                    return True
+                f = panics.sole_caller(ctx.mir, f)
+                if f is None:
+                    return False
+            return False
+        if s["kind"] == "precondition" and s["what"].endswith(("BytesMut::split_to", "Buf::advance", "BytesMut::advance", "::index")) and part_of_decode(s["fn"]):
             r41 = [i for i in rep.instances if i["rule"] == "R4.1" and not i["ok"]]
             r42 = [i for i in rep.instances if i["rule"] == "R4.2" and not i["ok"]]
             if not r41 and not r42:
